@@ -431,6 +431,14 @@ _F5T = ['node.topological_order.loop', 'node.topological_order_layered.loop', 'n
 for _p in ('C08', 'C06', 'C09'):
     _add(_p, _O + 'Struct5Topo', 'Deeprob.Oblig.Struct5T', _S5T, _F5T)
     _add(_p, 'DeeprobModel.Props.E2ETopo', 'Deeprob.E2ETopo', _E5T, [])
+# round 5: real-valued witnesses (there is no `ExpLog Rat` instance — SamplingFacts.expLog_rat_empty — so examples quantified over one were vacuous)
+_RW = 'Deeprob.RealWitnesses'
+_add('C01', 'DeeprobModel.Props.RealWitnesses', _RW, ['e2e_log_likelihood_real', 'genTable_real_eq_cast', 'real_log_floor'], [])
+_add('C07', 'DeeprobModel.Props.RealWitnesses', _RW, ['sumSampleEntry_real', 'branchPmf_real', 'sample_as_coded_real'], [])
+_add('C06', 'DeeprobModel.Props.RealWitnesses', _RW, ['sum_mpe_as_coded_real'], [])
+_add('C11', 'DeeprobModel.Props.RealWitnesses', _RW, ['fit_tree_maximal_real', 'mutualInfo_as_coded_real'], [])
+_add('C14', 'DeeprobModel.Props.RealWitnesses', _RW, ['gaussian_em_sigma_pos_real', 'gradRoot_denotes_real'], [])
+_add('C19', 'DeeprobModel.Props.RealWitnesses', _RW, ['skewness_sigma_real'], [])
 # round 5: the Gaussian leaf (density as SciPy evaluates it, normalisation, mode, raw moments of every order as integrals)
 _GT = 'Deeprob.GaussTheory'
 _add('C01', 'DeeprobModel.Props.GaussTheory', _GT, ['gauss_exp_logpdf', 'gauss_integral_one', 'gaussPdf_pos'], [])
